@@ -32,7 +32,7 @@ def base_state(interp: Interp) -> State:
     return st
 
 
-def merge_entries(interp: Interp, cls_name: str):
+def merge_entries(interp: Interp, cls_name: str, envelope_only: bool = False):
     """States at the entry of RunningOrder.__add__(ro, msg) for message class *cls_name*."""
     prog = interp.prog
     st = base_state(interp)
@@ -53,6 +53,8 @@ def merge_entries(interp: Interp, cls_name: str):
             req[ro_root.sym] = (base_tag_literal(interp, ro_cls),)
             req[msg_root.sym] = (base_tag_literal(interp, msg_cls),)
             s2.mon['sym:rootreq'] = req
+            if envelope_only:
+                s2.mon['envelope_only'] = True
             outs.append((ro, msg, s2))
     return outs
 
